@@ -35,6 +35,16 @@ type RS struct {
 	REmb
 }
 
+// RSeqA / RSeqB: two types of one shape; only RSeqA is evaluated with a nil embedded pointer first
+type RSeqA struct {
+	*REmb
+	A int
+}
+type RSeqB struct {
+	*REmb
+	A int
+}
+
 type RPtrEmb struct {
 	*REmb
 	A int
@@ -241,6 +251,41 @@ func suiteReflect(tier string, seed uint64) *Report {
 		})
 		if out != "ok" {
 			rep.Add(Disagreement{Case: fmt.Sprintf("$.* on %+v", *v), Where: "Expr.Locate / Get on a struct", Kind: "impl-law:reflect-struct-fields", Impl: out, Spec: "every located field path selects one value"})
+		}
+	}
+	// directed, judged: what a path selects on a struct does not depend on which other values of the
+	// same type were evaluated before (RSeqA sees a nil embedded pointer first, RSeqB does not)
+	for k := 0; k < 10; k++ {
+		for _, ps := range []string{"$.C", "$.c", "$.A", "$.*", "$..C", "$['C','A']"} {
+			x := jp.MustParseString(ps)
+			rep.Evaluations++
+			out := safeT(func() string {
+				_ = x.Get(&RSeqA{A: k})
+				_ = x.Has(&RSeqA{A: k})
+				_, _ = x.FirstFound(&RSeqA{A: k})
+				_ = x.Locate(&RSeqA{A: k}, 0)
+				a := &RSeqA{REmb: &REmb{C: 7 + k}, A: k}
+				b := &RSeqB{REmb: &REmb{C: 7 + k}, A: k}
+				ga, gb := strings.Join(showListSorted(x.Get(a)), " ; "), strings.Join(showListSorted(x.Get(b)), " ; ")
+				if ga != gb {
+					return fmt.Sprintf("Get after a nil-embedded value of the type: %s, on a type without that history: %s", ga, gb)
+				}
+				if x.Has(a) != x.Has(b) {
+					return fmt.Sprintf("Has after a nil-embedded value: %v, without: %v", x.Has(a), x.Has(b))
+				}
+				fa, oka := x.FirstFound(a)
+				fb, okb := x.FirstFound(b)
+				if oka != okb || (oka && Show(fa) != Show(fb) && !strings.Contains(ps, "*")) {
+					return fmt.Sprintf("FirstFound after a nil-embedded value: %v %v, without: %v %v", fa, oka, fb, okb)
+				}
+				if la, lb := len(x.Locate(a, 0)), len(x.Locate(b, 0)); la != lb {
+					return fmt.Sprintf("Locate after a nil-embedded value: %d paths, without: %d", la, lb)
+				}
+				return "ok"
+			})
+			if out != "ok" {
+				rep.Add(Disagreement{Case: ps + " on a struct with an embedded pointer", Where: "evaluators on struct values of one type in sequence", Kind: "impl-law:reflect-history", Impl: out, Spec: "independent of earlier values"})
+			}
 		}
 	}
 	// directed, judged: on a Keyed collection whose Keys() are not sorted, First is the head of Get
